@@ -53,6 +53,11 @@ int main(void)
     {
         return 2;
     }
+    if (controlHandshakes(v_tls_1_2, CS_RSA_AES128_GCM) < 0)
+    {
+        printf("CONTROL FAILED\n");
+        return 3;
+    }
     sk = loadServerKeys(0);
     ck = loadClientKeys(0);
     memset(&so, 0, sizeof(so)); memset(&co, 0, sizeof(co));
@@ -106,7 +111,7 @@ int main(void)
         cli->sec.remSeq[6], cli->sec.remSeq[7]);
     if (rc < 0 || (cli->flags & SSL_FLAGS_ERROR))
     {
-        printf("client rejected the repeated CCS: no violation\n");
+        printf("OK: client rejected the repeated CCS (rc %d, alert %d)\n", rc, cli->err);
         return 0;
     }
     /* the server's own Finished record (sequence number 0) */
@@ -121,6 +126,6 @@ int main(void)
             "read sequence number reset, no unexpected_message alert)\n");
         return 1;
     }
-    printf("no violation\n");
+    printf("OK: handshake did not complete\n");
     return 0;
 }
